@@ -7,8 +7,8 @@
       Coq's reals for every angle
    4. SWAP for all (unbounded) distinct mode quadruples
    5. transfer of the tables to the complex numbers through the evaluation homomorphism *)
-From Coq Require Import ZArith List Bool Arith Lia Ring_theory Ring Permutation.
-From LW Require Import Base.Sx Base.Num Base.Sums Base.Mat Base.QI2 Base.NumField
+From Coq Require Import ZArith List Bool Arith Lia Ring_theory Ring Permutation Reals Lra.
+From LW Require Import Base.Sx Base.Num Base.Sums Base.Mat Base.QI2 Base.NumField Base.RInst
      Model.State Model.Circuit Model.World Model.Fock Model.Gates Proofs.PermP.
 Import ListNotations.
 Open Scope nat_scope.
@@ -104,11 +104,11 @@ Definition gB_CZH := gate_CZ_Heralded oB b_h b_r2 b_qi b_g.
 Definition gB_CNOTH := gate_CNOT_Heralded oB b_h b_r2 b_qi b_g.
 
 Lemma kA_cz_norm : kmul cA (kofZ cA 9) (kmul cA kA_cz (kconj cA kA_cz)) = k1 cA.
-Proof. apply (by_eqb cA). vm_compute. reflexivity. Qed.
+Proof. apply (@by_eqb _ cA cA_unit). vm_compute. reflexivity. Qed.
 Lemma kA_ccz_norm : kmul cA (kofZ cA 72) (kmul cA kA_ccz (kconj cA kA_ccz)) = k1 cA.
-Proof. apply (by_eqb cA). vm_compute. reflexivity. Qed.
+Proof. apply (@by_eqb _ cA cA_unit). vm_compute. reflexivity. Qed.
 Lemma kB_czh_norm : kmul cB (kofZ cB 16) (kmul cB kB_czh (kconj cB kB_czh)) = k1 cB.
-Proof. apply (by_eqb cB). vm_compute. reflexivity. Qed.
+Proof. apply (@by_eqb _ cB cB_unit). vm_compute. reflexivity. Qed.
 
 Lemma tab_CZ : check_table oA gA_CZ 2 kA_cz (spec_CZ cA) = true.
 Proof. vm_compute. reflexivity. Qed.
@@ -154,24 +154,24 @@ Proof.
 Qed.
 
 Lemma CZ_acts : acts_as oA gA_CZ 2 9 (spec_CZ cA).
-Proof. exact (acts_as_intro oA _ _ _ _ _ kA_cz_norm tab_CZ). Qed.
+Proof. exact (@acts_as_intro _ oA oA_star oA_unit _ _ _ _ _ kA_cz_norm tab_CZ). Qed.
 
 Lemma CNOT_acts tq : In tq [0; 1]%Z -> acts_as oA (gA_CNOT tq) 2 9 (spec_CNOT cA (Z.to_nat tq)).
 Proof.
   intros [<-|[<-|[]]].
-  - exact (acts_as_intro oA _ _ _ _ _ kA_cz_norm tab_CNOT0).
-  - exact (acts_as_intro oA _ _ _ _ _ kA_cz_norm tab_CNOT1).
+  - exact (@acts_as_intro _ oA oA_star oA_unit _ _ _ _ _ kA_cz_norm tab_CNOT0).
+  - exact (@acts_as_intro _ oA oA_star oA_unit _ _ _ _ _ kA_cz_norm tab_CNOT1).
 Qed.
 
 Lemma CCZ_acts : acts_as oA gA_CCZ 3 72 (spec_CCZ cA).
-Proof. exact (acts_as_intro oA _ _ _ _ _ kA_ccz_norm tab_CCZ). Qed.
+Proof. exact (@acts_as_intro _ oA oA_star oA_unit _ _ _ _ _ kA_ccz_norm tab_CCZ). Qed.
 
 Lemma CCNOT_acts tq : In tq [0; 1; 2]%Z -> acts_as oA (gA_CCNOT tq) 3 72 (spec_CCNOT cA (Z.to_nat tq)).
 Proof.
   intros [<-|[<-|[<-|[]]]].
-  - exact (acts_as_intro oA _ _ _ _ _ kA_ccz_norm tab_CCNOT0).
-  - exact (acts_as_intro oA _ _ _ _ _ kA_ccz_norm tab_CCNOT1).
-  - exact (acts_as_intro oA _ _ _ _ _ kA_ccz_norm tab_CCNOT2).
+  - exact (@acts_as_intro _ oA oA_star oA_unit _ _ _ _ _ kA_ccz_norm tab_CCNOT0).
+  - exact (@acts_as_intro _ oA oA_star oA_unit _ _ _ _ _ kA_ccz_norm tab_CCNOT1).
+  - exact (@acts_as_intro _ oA oA_star oA_unit _ _ _ _ _ kA_ccz_norm tab_CCNOT2).
 Qed.
 
 (* heralded gates: the table and no leakage *)
@@ -182,18 +182,18 @@ Definition no_leak {K} (o : ops K) (g : res (@gate K)) (nq : nat) : Prop :=
 
 Lemma CZH_acts : acts_as oB gB_CZH 2 16 (spec_CZ cB) /\ no_leak oB gB_CZH 2.
 Proof.
-  split; [exact (acts_as_intro oB _ _ _ _ _ kB_czh_norm tab_CZH)|].
-  intros gt Hg. exact (check_leak_sound oB _ _ gt leak_CZH Hg).
+  split; [exact (@acts_as_intro _ oB oB_star oB_unit _ _ _ _ _ kB_czh_norm tab_CZH)|].
+  intros gt Hg. exact (@check_leak_sound _ oB oB_star oB_unit _ _ gt leak_CZH Hg).
 Qed.
 
 Lemma CNOTH_acts tq : In tq [0; 1]%Z ->
   acts_as oB (gB_CNOTH tq) 2 16 (spec_CNOT cB (Z.to_nat tq)) /\ no_leak oB (gB_CNOTH tq) 2.
 Proof.
   intros [<-|[<-|[]]].
-  - split; [exact (acts_as_intro oB _ _ _ _ _ kB_czh_norm tab_CNOTH0)|].
-    intros gt Hg. exact (check_leak_sound oB _ _ gt leak_CNOTH0 Hg).
-  - split; [exact (acts_as_intro oB _ _ _ _ _ kB_czh_norm tab_CNOTH1)|].
-    intros gt Hg. exact (check_leak_sound oB _ _ gt leak_CNOTH1 Hg).
+  - split; [exact (@acts_as_intro _ oB oB_star oB_unit _ _ _ _ _ kB_czh_norm tab_CNOTH0)|].
+    intros gt Hg. exact (@check_leak_sound _ oB oB_star oB_unit _ _ gt leak_CNOTH0 Hg).
+  - split; [exact (@acts_as_intro _ oB oB_star oB_unit _ _ _ _ _ kB_czh_norm tab_CNOTH1)|].
+    intros gt Hg. exact (@check_leak_sound _ oB oB_star oB_unit _ _ gt leak_CNOTH1 Hg).
 Qed.
 
 (* invalid targets are rejected with ValueError, for every scalar type *)
@@ -227,6 +227,281 @@ Lemma shapes :
   (forall tq, In tq [0; 1; 2]%Z ->
      shape (gA_CCNOT tq) = Some (10, 6, [(0, 0); (1, 0); (8, 0); (9, 0)], [(0, 0); (1, 0); (8, 0); (9, 0)], 10)).
 Proof.
-  repeat split; try (vm_compute; reflexivity);
-    intros tq H; repeat (destruct H as [<-|H]; [vm_compute; reflexivity|]); destruct H.
+  split; [vm_compute; reflexivity|].
+  split; [intros tq H; repeat (destruct H as [<-|H]; [vm_compute; reflexivity|]); destruct H|].
+  split; [vm_compute; reflexivity|].
+  split; [intros tq H; repeat (destruct H as [<-|H]; [vm_compute; reflexivity|]); destruct H|].
+  split; [vm_compute; reflexivity|].
+  intros tq H; repeat (destruct H as [<-|H]; [vm_compute; reflexivity|]); destruct H.
 Qed.
+
+(* ------------------------------------------------------------------ *)
+(* 3. single-qubit gates and rotations, any commutative *-ring         *)
+(* ------------------------------------------------------------------ *)
+Section Single.
+  Context {K : Type} (o : ops K) {SR : StarRing o}.
+  Let Rr := sr_ring (o:=o).
+  Add Ring Ksq : Rr.
+  Notation co := (cplx o).
+
+  Lemma in_bits1 b : In b (bits 1) -> b = [false] \/ b = [true].
+  Proof. simpl. intros [<-|[<-|[]]]; auto. Qed.
+
+  Let Rc := cplx_ring o.
+  Add Ring Kcq : Rc.
+
+  (* one photon, no heralds: the amplitude is one matrix entry (permanent of a 1 x 1 matrix), factor 1 *)
+  Lemma sim_amp_one_photon (gt : @gate K) (x y : bool) :
+    c_in (g_circ gt) = [] -> c_out (g_circ gt) = [] ->
+    sim_amp o gt (dr [x]) (dr [y]) = Ok (g_U gt (idx1 [y]) (idx1 [x]), 1).
+  Proof.
+    intros H1 H2. unfold sim_amp. rewrite H1, H2.
+    transitivity (Ok (kadd co (kmul co (g_U gt (idx1 [y]) (idx1 [x])) (k1 co)) (k0 co), 1));
+      [destruct x, y; reflexivity|].
+    f_equal. f_equal. ring.
+  Qed.
+
+  (* Unitary(V) compiles to V on [0,2) *)
+  Lemma unitary2_gate rows :
+    exists gt, compile_gate o (Ok [OUnitary 0 2 rows]) 0 = Ok gt /\
+      c_in (g_circ gt) = [] /\ c_out (g_circ gt) = [] /\ c_n (g_circ gt) = 2 /\ g_dim gt = 2 /\
+      meq 2 (g_U gt) (of_rows co rows).
+  Proof.
+    eexists. split; [reflexivity|]. repeat (split; [reflexivity|]).
+    cbn [g_U snd mul_in c_n unitary_circ].
+    eapply meq_trans; [apply tab_spec|].
+    eapply meq_trans; [apply mmul_id_r|].
+    intros i j Hi Hj. unfold umat_mat, block_mat.
+    destruct i as [|[|i]]; [| |lia]; (destruct j as [|[|j]]; [| |lia]); reflexivity.
+  Qed.
+
+  Definition acts_exactly (g : res (@gate K)) (M : nat -> nat -> K * K) : Prop :=
+    exists gt, g = Ok gt /\ c_in (g_circ gt) = [] /\ c_out (g_circ gt) = [] /\ c_n (g_circ gt) = 2 /\
+      forall b b', In b (bits 1) -> In b' (bits 1) ->
+        sim_amp o gt (dr b) (dr b') = Ok (M (idx1 b') (idx1 b), 1).
+
+  Lemma unitary2_acts rows M :
+    (forall i j, i < 2 -> j < 2 -> of_rows co rows i j = M i j) ->
+    acts_exactly (compile_gate o (Ok [OUnitary 0 2 rows]) 0) M.
+  Proof.
+    intros HM. destruct (unitary2_gate rows) as [gt [Hg [H1 [H2 [H3 [_ HU]]]]]].
+    exists gt. repeat (split; [assumption|]).
+    intros b b' Hb Hb'. apply in_bits1 in Hb. apply in_bits1 in Hb'.
+    assert (E : forall x y : bool, sim_amp o gt (dr [x]) (dr [y]) = Ok (M (idx1 [y]) (idx1 [x]), 1)).
+    { intros x y. rewrite sim_amp_one_photon by assumption.
+      rewrite HU, HM; [reflexivity| | | |]; unfold idx1; simpl; destruct x, y; lia. }
+    destruct Hb as [-> | ->]; destruct Hb' as [-> | ->]; apply E.
+  Qed.
+
+  Lemma sq_acts (h : K) (g : sq) :
+    kmul o h h = kq o 1 2 -> acts_exactly (gate_sq o h g) (named_sq o h g).
+  Proof.
+    intros Hh. unfold kq in Hh. apply unitary2_acts. intros i j Hi Hj.
+    destruct i as [|[|i]]; [| |lia]; (destruct j as [|[|j]]; [| |lia]); destruct g;
+      cbn; unfold cmul, Num.cadd, csub, copp, re, im, kq; cbn; try rewrite <- Hh; f_equal; ring.
+  Qed.
+
+  Lemma rq_acts (g : rq) (c s : K) : acts_exactly (gate_rq o g c s) (named_rq o g c s).
+  Proof.
+    apply unitary2_acts. intros i j Hi Hj.
+    destruct i as [|[|i]]; [| |lia]; (destruct j as [|[|j]]; [| |lia]); destruct g;
+      cbn; unfold cmul, Num.cadd, csub, copp, re, im, kq; cbn; f_equal; ring.
+  Qed.
+  (* with c^2 + s^2 = 1 the rotation arrays are unitary (so Unitary's check accepts them) *)
+  Lemma rq_unitary (g : rq) (c s : K) :
+    kadd o (kmul o c c) (kmul o s s) = k1 o -> unitary co 2 (of_rows co (rq_rows o g c s)).
+  Proof.
+    intros H. split; intros i j Hi Hj;
+      (destruct i as [|[|i]]; [| |lia]); (destruct j as [|[|j]]; [| |lia]); destruct g;
+      cbn; unfold cmul, Num.cadd, csub, copp, cconj, re, im; cbn; f_equal;
+      first [ring | (rewrite <- H; ring)].
+  Qed.
+End Single.
+
+
+Lemma rot_real (g : rq) (theta : R) :
+  acts_exactly rops (gate_rq rops g (cos (theta / 2)) (sin (theta / 2)))
+               (named_rq rops g (cos (theta / 2)) (sin (theta / 2))) /\
+  unitary cops 2 (of_rows cops (rq_rows rops g (cos (theta / 2)) (sin (theta / 2)))).
+Proof.
+  split; [apply (rq_acts rops)|]. apply (rq_unitary rops). simpl.
+  generalize (sin2_cos2 (theta / 2)). unfold Rsqr. lra.
+Qed.
+
+Lemma sq_real (g : sq) : acts_exactly rops (gate_sq rops (/ sqrt 2)%R g) (named_sq rops (/ sqrt 2)%R g).
+Proof.
+  apply (sq_acts rops). unfold kq. simpl.
+  assert (H : (sqrt 2 * sqrt 2 = 2)%R) by (apply sqrt_def; lra).
+  assert (H0 : (sqrt 2 <> 0)%R) by (intros E; rewrite E in H; lra).
+  rewrite <- Rinv_mult. rewrite H. lra.
+Qed.
+
+
+(* ------------------------------------------------------------------ *)
+(* 4. SWAP on all distinct mode quadruples                             *)
+(* ------------------------------------------------------------------ *)
+Lemma insert_nat_comm x y l : insert_nat x (insert_nat y l) = insert_nat y (insert_nat x l).
+Proof.
+  induction l as [|z l IH]; simpl.
+  - destruct (x <=? y) eqn:E1, (y <=? x) eqn:E2; try reflexivity;
+      apply Nat.leb_le in E1 || apply Nat.leb_gt in E1; apply Nat.leb_le in E2 || apply Nat.leb_gt in E2;
+      try lia. replace y with x by lia. reflexivity.
+  - destruct (y <=? z) eqn:Eyz, (x <=? z) eqn:Exz; simpl;
+      destruct (x <=? y) eqn:Exy, (y <=? x) eqn:Eyx; simpl; rewrite ?Eyz, ?Exz, ?Exy, ?Eyx; simpl;
+      rewrite ?Eyz, ?Exz; try reflexivity; try (rewrite IH; reflexivity);
+      repeat match goal with
+             | H : (_ <=? _) = true |- _ => apply Nat.leb_le in H
+             | H : (_ <=? _) = false |- _ => apply Nat.leb_gt in H
+             end; try lia.
+    + replace y with x by lia. reflexivity.
+Qed.
+
+Lemma sort_nat_permutation l l' : Permutation l l' -> sort_nat l = sort_nat l'.
+Proof.
+  induction 1; simpl; try congruence. apply insert_nat_comm.
+Qed.
+
+Lemma list_eqb_refl l : list_eqb l l = true.
+Proof. induction l as [|x l IH]; simpl; [reflexivity|]. rewrite Nat.eqb_refl. exact IH. Qed.
+
+Section TwoPhotons.
+  Context {R : Type} {r : ops R} {SR : StarRing r}.
+  Let Rr := sr_ring (o:=r).
+  Add Ring Ktp : Rr.
+
+  Lemma expand_two_photons n x y :
+    x < n -> y < n -> Permutation (expand (two_photons n x y)) [x; y].
+  Proof.
+    intros Hx Hy. unfold two_photons.
+    eapply perm_trans; [apply expand_incr; rewrite incr_length, repeat_length; exact Hx|].
+    apply perm_skip.
+    eapply perm_trans; [apply expand_incr; rewrite repeat_length; exact Hy|].
+    unfold expand. rewrite expand_from_repeat0. reflexivity.
+  Qed.
+
+  Lemma fact_prod_two_photons n x y : x < n -> y < n -> x <> y -> fact_prod (two_photons n x y) = 1.
+  Proof.
+    intros Hx Hy Hxy. unfold two_photons.
+    rewrite fact_prod_incr by (rewrite incr_length, repeat_length; exact Hx).
+    rewrite nth_incr_other by (intros E; apply Hxy; symmetry; exact E).
+    rewrite fact_prod_incr by (rewrite repeat_length; exact Hy).
+    rewrite fact_prod_repeat0.
+    assert (E : forall k, nth k (repeat 0 n) 0 = 0).
+    { intros k. destruct (Nat.lt_ge_cases k n) as [Hk|Hk];
+        [apply nth_repeat|apply nth_overflow; rewrite repeat_length; exact Hk]. }
+    rewrite !E. reflexivity.
+  Qed.
+
+  (* two photons in distinct modes: the permanent of the 2 x 2 sub-matrix, factor 1 *)
+  Lemma amp_two_photons (U : @mat R) n x y x' y' :
+    x < n -> y < n -> x' < n -> y' < n -> x <> y -> x' <> y' ->
+    amp_perm r U (two_photons n x y) (two_photons n x' y') =
+      kadd r (kmul r (U x' x) (U y' y)) (kmul r (U y' x) (U x' y)) /\
+    amp_factor (two_photons n x y) (two_photons n x' y') = 1.
+  Proof.
+    intros Hx Hy Hx' Hy' Hxy Hxy'. split.
+    - unfold amp_perm.
+      rewrite (perm_ml_rows_perm U _ [x'; y'] _ (expand_two_photons n x' y' Hx' Hy')).
+      rewrite (perm_ml_cols_perm U _ _ [x; y] (expand_two_photons n x y Hx Hy)).
+      simpl. ring.
+    - unfold amp_factor. rewrite !fact_prod_two_photons by assumption. reflexivity.
+  Qed.
+End TwoPhotons.
+
+Section Swap.
+  Context {K : Type} (o : ops K) {SR : StarRing o}.
+  Notation co := (cplx o).
+  Let Rc := cplx_ring o.
+  Add Ring Kcs : Rc.
+
+  Variables a0 a1 b0 b1 : nat.
+  Hypothesis ND : NoDup [a0; a1; b0; b1].
+  Let n := S (Nat.max (Nat.max (Nat.max a0 a1) b0) b1).
+  Let sw : dict := [(a0, b0); (b0, a0); (a1, b1); (b1, a1)].
+  Let zsw : list (Z * Z) := map (fun kv => (Z.of_nat (fst kv), Z.of_nat (snd kv))) sw.
+
+  Lemma nd_facts : a0 <> a1 /\ a0 <> b0 /\ a0 <> b1 /\ a1 <> b0 /\ a1 <> b1 /\ b0 <> b1.
+  Proof.
+    inversion ND as [|? ? N1 ND1]; subst. inversion ND1 as [|? ? N2 ND2]; subst.
+    inversion ND2 as [|? ? N3 ND3]; subst. simpl in *. intuition.
+  Qed.
+
+  Lemma swap_modes_lt : a0 < n /\ a1 < n /\ b0 < n /\ b1 < n.
+  Proof. unfold n. lia. Qed.
+
+  Lemma op_mode_swaps_swap :
+    op_mode_swaps (new_circ (K:=K) n) zsw = Ok (app_spec (new_circ n) [Swaps sw]).
+  Proof.
+    destruct nd_facts as [H01 [H02 [H03 [H12 [H13 H23]]]]].
+    destruct swap_modes_lt as [L0 [L1 [L2 L3]]].
+    unfold op_mode_swaps. cbn [c_int new_circ].
+    assert (MM : forall z, map_mode [] z = z) by reflexivity.
+    unfold zsw, sw. cbn [map fst snd fold_left]. rewrite !MM.
+    assert (E : forall x y, x <> y -> (Z.of_nat x =? Z.of_nat y)%Z = false)
+      by (intros x y Hxy; apply Z.eqb_neq; lia).
+    repeat (cbn [zdset]; rewrite E by lia).
+    cbn [zdset map fst snd all_ok].
+    assert (MO : forall a, a < n -> mode_ok (new_circ (K:=K) n) (Z.of_nat a) = Ok a).
+    { intros a Ha. unfold mode_ok, in_range. cbn [c_n new_circ].
+      replace ((0 <=? Z.of_nat a)%Z && (Z.of_nat a <? Z.of_nat n)%Z) with true.
+      - rewrite Nat2Z.id. reflexivity.
+      - symmetry. apply andb_true_iff. split; [apply Z.leb_le|apply Z.ltb_lt]; lia. }
+    rewrite !MO by assumption. cbn [bind].
+    rewrite (sort_nat_permutation [a0; b0; a1; b1] [b0; a0; b1; a1]).
+    - rewrite list_eqb_refl. reflexivity.
+    - eapply perm_trans; [apply perm_swap|]. do 2 apply perm_skip. apply perm_swap.
+  Qed.
+
+  Definition zq (m0 m1 : nat) : list (option Z) := [Some (Z.of_nat m0); Some (Z.of_nat m1)].
+  Definition swap_perm (i : nat) : nat := swap_fun sw i.
+
+  Lemma gate_SWAP_compiles :
+    exists gt, gate_SWAP o (zq a0 a1) (zq b0 b1) = Ok gt /\
+      c_n (g_circ gt) = n /\ c_in (g_circ gt) = [] /\ c_out (g_circ gt) = [] /\ g_dim gt = n /\
+      meq n (g_U gt) (perm_mat co swap_perm).
+  Proof.
+    unfold gate_SWAP, compile_gate, mk_SWAP, zq. cbn [length Nat.eqb negb app all_some bind].
+    assert (En : Z.to_nat (zmax [Z.of_nat a0; Z.of_nat a1; Z.of_nat b0; Z.of_nat b1] + 1) = n).
+    { unfold zmax, n. cbn [tl hd fold_left]. lia. }
+    rewrite En. cbn [run step wset upd wget Nat.eqb].
+    change [(Z.of_nat a0, Z.of_nat b0); (Z.of_nat b0, Z.of_nat a0); (Z.of_nat a1, Z.of_nat b1);
+            (Z.of_nat b1, Z.of_nat a1)] with zsw.
+    rewrite op_mode_swaps_swap. cbn [wset wget Nat.eqb first_err fold_right bind].
+    eexists. split; [reflexivity|]. repeat (split; [reflexivity|]).
+    cbn [g_U snd mul_in]. eapply meq_trans; [apply tab_spec|]. apply mmul_id_r.
+  Qed.
+
+  Lemma znat_of_nat s : znat (map Z.of_nat s) = s.
+  Proof. unfold znat. rewrite map_map. rewrite <- (map_id s) at 2. apply map_ext. intros. apply Nat2Z.id. Qed.
+
+  Definition zstate (s : list nat) : list Z := map Z.of_nat s.
+
+  Lemma SWAP_acts :
+    exists gt, gate_SWAP o (zq a0 a1) (zq b0 b1) = Ok gt /\
+      c_n (g_circ gt) = n /\ c_in (g_circ gt) = [] /\ c_out (g_circ gt) = [] /\
+      meq n (g_U gt) (perm_mat co swap_perm) /\
+      forall p q p' q' : bool,
+        sim_amp o gt (zstate (two_photons n (rail p a0 a1) (rail q b0 b1)))
+                     (zstate (two_photons n (rail p' a0 a1) (rail q' b0 b1)))
+        = Ok (spec_SWAP co [p'; q'] [p; q], 1).
+  Proof.
+    destruct gate_SWAP_compiles as [gt [Hg [Hn [Hi [Ho [Hd HU]]]]]].
+    exists gt. repeat (split; [assumption|]).
+    destruct nd_facts as [H01 [H02 [H03 [H12 [H13 H23]]]]].
+    destruct swap_modes_lt as [L0 [L1 [L2 L3]]].
+    intros p q p' q'. unfold sim_amp, zstate. rewrite Hi, Ho. cbn [hdz map add_heralds_to_state bind].
+    rewrite !znat_of_nat.
+    assert (Lr : forall b m0 m1, m0 < n -> m1 < n -> rail b m0 m1 < n) by (intros [|]; simpl; auto).
+    assert (Dr : forall b c, rail b a0 a1 <> rail c b0 b1) by (intros [|] [|]; simpl; lia).
+    destruct (amp_two_photons (r:=co) (g_U gt) n (rail p a0 a1) (rail q b0 b1) (rail p' a0 a1) (rail q' b0 b1))
+      as [EA EF]; auto.
+    rewrite EA, EF. f_equal. f_equal.
+    rewrite !HU by auto.
+    assert (E : forall x y, x <> y -> (x =? y) = false) by (intros; apply Nat.eqb_neq; assumption).
+    unfold perm_mat, swap_perm, swap_fun, sw, spec_SWAP, delta, bit.
+    destruct p, q, p', q'; cbn [rail dget nth bits_eqb Bool.eqb andb];
+      repeat (rewrite ?Nat.eqb_refl; rewrite ?(E a0 a1), ?(E a0 b0), ?(E a0 b1), ?(E a1 a0), ?(E a1 b0), ?(E a1 b1),
+                ?(E b0 a0), ?(E b0 a1), ?(E b0 b1), ?(E b1 a0), ?(E b1 a1), ?(E b1 b0) by lia; cbn [dget]);
+      ring.
+  Qed.
+End Swap.
